@@ -15,6 +15,8 @@ EXPLANATION = (
     'matrix A - sigma*B handed to the factorization is assembled from the triangles the user named (shared with C11); (D4) an '
     'operator passed as rvalue is moved into a container member declared before the reference member that is bound to the '
     'container\'s element and before the factorization member that is built from that reference (no dangling operator). '
+    '(D5) the stored matrix of a wrapper with a triangle option is consumed only by triangle views, triangle-aware factorizations, '
+    'size queries or element access (shared with C11). '
     'Does NOT decide residual sizes, B-orthonormality level, or the effect of conditioning.')
 ASSUMPTIONS = c04.ASSUMPTIONS + ['DenseCholesky / SparseCholesky solve with the factor of the matrix they were given (C11)']
 
